@@ -43,7 +43,9 @@ Window(n, c, W, kern) ==
             arg == RDiv(RSub(RInt(i), c), RMul(W, Half))
         IN [i |-> i, wrapped |-> i % n, arg |-> arg,
             w |-> CASE kern = "spline0" -> Spline(0, arg) [] kern = "spline1" -> Spline(1, arg)
-                    [] kern = "spline2" -> Spline(2, arg) [] OTHER -> RInt(0)]]
+                    [] kern = "spline2" -> Spline(2, arg) [] OTHER -> RInt(0),
+            \* the weights of all three spline orders: `param` may differ per axis (order 2 along z, 1 along y, 0 along x, ...)
+            ws |-> <<Spline(0, arg), Spline(1, arg), Spline(2, arg)>>]]
 
 Points(r) == [1..r -> IF r = 1 THEN CoordVals ELSE Coords2]
 WidthArgs(r) == {[d \in 1..r |-> w] : w \in Widths} \cup {ws \in AxisWidths : Len(ws) = r}
